@@ -399,6 +399,17 @@ func (a *Arith) linD(v ssa.Value, d int) Lin {
 		}
 	case *ssa.ChangeType:
 		return a.linD(x.X, d+1)
+	case *ssa.UnOp:
+		// a load of a local variable's cell (a variable captured by a closure): the value stored once, or the value
+		// of the store that reaches the load on a straight line without a call in between
+		if x.Op == token.MUL && isInteger(x.Type()) {
+			if sv, ok := cellValue(x); ok && sv != nil && isInteger(sv.Type()) {
+				return a.linD(sv, d+1)
+			}
+			if sv := reachingCellStore(x); sv != nil {
+				return a.linD(sv, d+1)
+			}
+		}
 	case *ssa.Call:
 		if b, ok := x.Call.Value.(*ssa.Builtin); ok && b.Name() == "len" && len(x.Call.Args) == 1 {
 			return a.lenLin(x.Call.Args[0], d)
@@ -425,6 +436,91 @@ func (a *Arith) linD(v ssa.Value, d int) Lin {
 		}
 	}
 	return a.atom(v)
+}
+
+// resultCap: the upper bound looked for in integer results (the same cap R-BOUNDS asks of counts).
+const resultCap = 1<<31 - 1
+
+// resultRange: is the i-th result of fn (an integer) proven >= 0, resp. <= resultCap, at every return of fn?
+func (m *Model) resultRange(fn *ssa.Function, i int) (nonneg, capped bool) {
+	type key struct {
+		fn *ssa.Function
+		i  int
+	}
+	if m.resRange == nil {
+		m.resRange = map[any][2]bool{}
+	}
+	k := key{fn, i}
+	if r, ok := m.resRange[k]; ok {
+		return r[0], r[1]
+	}
+	m.resRange[k] = [2]bool{false, false} // recursion: assume nothing
+	res := fn.Signature.Results()
+	if i >= res.Len() || !isInteger(res.At(i).Type()) {
+		return false, false
+	}
+	a := m.NewArith(fn)
+	nonneg, capped = true, true
+	n := 0
+	for _, b := range fn.Blocks {
+		ret, ok := b.Instrs[len(b.Instrs)-1].(*ssa.Return)
+		if !ok || i >= len(ret.Results) {
+			continue
+		}
+		n++
+		l := a.lin(ret.Results[i])
+		pt := pointOf(ret)
+		if nonneg && !a.ProveValLE(l.scale(-1), 0, pt) {
+			nonneg = false
+		}
+		if capped && !a.ProveValLE(l, resultCap, pt) {
+			capped = false
+		}
+	}
+	if n == 0 {
+		nonneg, capped = false, false
+	}
+	if os.Getenv("TWDEBUG") != "" {
+		fmt.Fprintf(os.Stderr, "resultRange %s #%d: nonneg=%v capped=%v (%d returns)\n", fnKey(fn), i, nonneg, capped, n)
+	}
+	m.resRange[k] = [2]bool{nonneg, capped}
+	return nonneg, capped
+}
+
+// reachingCellStore: ld loads a cell (an Alloc or a closure's free variable); walking back from the load through its
+// block and through single predecessors, the first instruction that can write the cell is a store to that very address,
+// and no call lies in between (a call may run a closure that writes the cell). Returns the stored value.
+func reachingCellStore(ld *ssa.UnOp) ssa.Value {
+	switch ld.X.(type) {
+	case *ssa.Alloc, *ssa.FreeVar:
+	default:
+		return nil
+	}
+	b := ld.Block()
+	idx := -1
+	for i, in := range b.Instrs {
+		if in == ssa.Instruction(ld) {
+			idx = i
+		}
+	}
+	for hops := 0; hops < 6 && b != nil; hops++ {
+		for i := idx - 1; i >= 0; i-- {
+			switch in := b.Instrs[i].(type) {
+			case *ssa.Store:
+				if in.Addr == ld.X {
+					return in.Val
+				}
+			case ssa.CallInstruction:
+				return nil
+			}
+		}
+		if len(b.Preds) != 1 {
+			return nil
+		}
+		b = b.Preds[0]
+		idx = len(b.Instrs)
+	}
+	return nil
 }
 
 // pureIntFuncs: library functions whose integer result depends only on their
@@ -645,10 +741,34 @@ func (a *Arith) axioms(form Lin, seen map[string]bool) []Ineq {
 					out = append(out, Ineq{linAtom(k).scale(-1), 0})
 				}
 				if al, ok := ld.X.(*ssa.Alloc); ok && inv.cells[al] {
-					out = append(out, Ineq{linAtom(k).scale(-1), 0})
+					out = append(out, Ineq{linAtom(k).scale(-1), -inv.cellLow[al]})
 				}
 				if fv, ok := ld.X.(*ssa.FreeVar); ok && inv.cellOf[fv] != nil && inv.cells[inv.cellOf[fv]] {
-					out = append(out, Ineq{linAtom(k).scale(-1), 0})
+					out = append(out, Ineq{linAtom(k).scale(-1), -inv.cellLow[inv.cellOf[fv]]})
+				}
+			}
+		}
+		// an integer result of a module function: the range every return of that function is proven to lie in
+		{
+			var rc *ssa.Call
+			ri := 0
+			switch y := v.(type) {
+			case *ssa.Extract:
+				rc, _ = y.Tuple.(*ssa.Call)
+				ri = y.Index
+			case *ssa.Call:
+				rc = y
+			}
+			if rc != nil && a.axiomDepth <= 1 {
+				if sc := rc.Call.StaticCallee(); sc != nil && a.m.InModule(sc) && sc.Blocks != nil {
+					if lo, hi := a.m.resultRange(sc, ri); lo || hi {
+						if lo {
+							out = append(out, Ineq{linAtom(k).scale(-1), 0})
+						}
+						if hi {
+							out = append(out, Ineq{linAtom(k), resultCap})
+						}
+					}
 				}
 			}
 		}
@@ -1347,17 +1467,18 @@ func (c *FnCtx) bufVersion(recv ssa.Value, at ssa.Instruction) string {
 // not modelled.
 
 type nonnegInv struct {
-	fields map[fieldID]bool
-	params map[*ssa.Parameter]bool
-	cells  map[*ssa.Alloc]bool        // integer locals captured by closures (memory cells shared with them)
-	cellOf map[*ssa.FreeVar]*ssa.Alloc // a closure's free variable -> the captured cell
+	fields  map[fieldID]bool
+	params  map[*ssa.Parameter]bool
+	cells   map[*ssa.Alloc]bool         // integer locals captured by closures (memory cells shared with them)
+	cellLow map[*ssa.Alloc]int64        // the lower bound that holds for a cell in cells (0, or a small negative constant)
+	cellOf  map[*ssa.FreeVar]*ssa.Alloc // a closure's free variable -> the captured cell
 }
 
 func (m *Model) NonnegInv() *nonnegInv {
 	if m.inv != nil && m.invDone {
 		return m.inv
 	}
-	inv := &nonnegInv{fields: map[fieldID]bool{}, params: map[*ssa.Parameter]bool{}, cells: map[*ssa.Alloc]bool{}, cellOf: map[*ssa.FreeVar]*ssa.Alloc{}}
+	inv := &nonnegInv{fields: map[fieldID]bool{}, params: map[*ssa.Parameter]bool{}, cells: map[*ssa.Alloc]bool{}, cellLow: map[*ssa.Alloc]int64{}, cellOf: map[*ssa.FreeVar]*ssa.Alloc{}}
 	m.inv = inv
 	type cellStore struct {
 		st   *ssa.Store
@@ -1452,6 +1573,14 @@ func (m *Model) NonnegInv() *nonnegInv {
 			}
 		}
 	}
+	// a cell's candidate lower bound: 0, or the smallest small negative constant stored into it (i := -1 ... i++)
+	for _, s := range cellStores {
+		if k, ok := s.st.Val.(*ssa.Const); ok && k.Value != nil {
+			if v, isInt := constant.Int64Val(k.Value); isInt && v < inv.cellLow[s.cell] && v >= -8 {
+				inv.cellLow[s.cell] = v
+			}
+		}
+	}
 	ariths := map[*ssa.Function]*Arith{}
 	ar := func(fn *ssa.Function) *Arith {
 		if a, ok := ariths[fn]; ok {
@@ -1478,7 +1607,7 @@ func (m *Model) NonnegInv() *nonnegInv {
 				continue
 			}
 			a := ar(s.st.Parent())
-			if !a.ProveValLE(a.lin(s.st.Val).scale(-1), 0, pointOf(s.st)) {
+			if !a.ProveValLE(a.lin(s.st.Val).scale(-1), -inv.cellLow[s.cell], pointOf(s.st)) {
 				delete(inv.cells, s.cell)
 				changed = true
 			}
